@@ -4,7 +4,10 @@ K/JoinWG: the goroutines emitted by plugin/join genChan (chan of chan) and genSl
     out := make(chan T)
     go func() {
         wait := sync.WaitGroup{}
+        listening := make(map[<-chan T]bool)        // slice form: make(map[…]bool, len(in))
         for c := range in {            // slice form: for _, c := range in
+            if listening[c] { continue }            // a channel given twice is listened to once (F64)
+            listening[c] = true
             wait.Add(1)
             res := c
             go func() { for r := range res { out <- r }; wait.Done() }()
@@ -17,7 +20,7 @@ K/JoinWG: the goroutines emitted by plugin/join genChan (chan of chan) and genSl
 The two forms differ only in how the spawner learns the next channel: in the chan-of-chan form it
 receives it from the outer channel (capacity `ocap`, an environment producer sends the `n` channels in
 order and closes); in the slice form the loop header is local.  The outer channel is FIFO and carries
-the channels 0,1,2,… in that order, so it is modelled by counters (`orem` still to send, `obuf`
+the positions 0,1,2,… in that order, so it is modelled by counters (`orem` still to send, `obuf`
 buffered); the replay checks that the k-th channel received is channel k.  The slice form is the same
 system started with all `n` channels buffered and the outer channel closed, with the (then always
 enabled, local) `next` step merged into the preceding step.
@@ -31,15 +34,20 @@ import GoderiveModel.K.Lts
 namespace Goderive.K.JoinWG
 
 structure Cfg where
-  n : Nat
+  n : Nat                  -- number of POSITIONS (slice elements / channels carried by the outer channel)
   items : Nat → List Nat
   cap : Nat → Nat
   chanForm : Bool
   ocap : Nat
+  /-- `seen p`: the channel at position p already occurred at an earlier position (`listening[c]` is true when
+  the dispatcher gets to it).  Such a position is skipped; its items are those of the first occurrence, so the
+  environment gives it no items of its own (`items p = []`).  Distinct inputs: `seen = fun _ => false`. -/
+  seen : Nat → Bool
 
 /-- forwarder `i` -/
 inductive FSt
   | absent | recv | send (v : Nat) | doneCall | finished
+  | skipped   -- no forwarder: the position repeats a channel that is already listened to
   deriving DecidableEq, Repr
 
 /-- spawner -/
@@ -80,16 +88,26 @@ def held : FSt → List Nat
   | .send v => [v]
   | _ => []
 
-/-- the spawner takes the next channel from the outer channel, or sees it closed and drained -/
-def advance (s : State) : State :=
-  if 0 < s.obuf then { s with obuf := s.obuf - 1, pc := .add } else { s with pc := .wait }
+/-- one turn of the dispatcher's loop head: it takes the next position from the outer channel — skipping it
+(`if listening[c] { continue }`) when its channel is already listened to — or sees the outer channel closed and
+drained.  The map lookup / insert is local to the dispatcher and merged into this step. -/
+def take (c : Cfg) (s : State) : State :=
+  if 0 < s.obuf then
+    if c.seen s.k then { s with obuf := s.obuf - 1, st := upd s.st s.k .skipped, k := s.k + 1 }
+    else { s with obuf := s.obuf - 1, pc := .add }
+  else { s with pc := .wait }
+
+/-- slice form: the loop header is local, so `take` is iterated until the dispatcher is at a visible step -/
+def advance (c : Cfg) : Nat → State → State
+  | 0, s => take c s
+  | f + 1, s => if (take c s).pc = .next then advance c f (take c s) else take c s
 
 def init (c : Cfg) : State :=
   let s0 : State :=
     { orem := c.n, obuf := 0, oclosed := false, k := 0, pc := .next, wg := 0,
       pend := c.items, ch := fun i => Chan.mk0 (c.cap i), st := fun _ => .absent,
       outClosed := false, got := [], seen := false, panicked := false }
-  if c.chanForm then s0 else advance { s0 with orem := 0, obuf := c.n, oclosed := true }
+  if c.chanForm then s0 else advance c c.n { s0 with orem := 0, obuf := c.n, oclosed := true }
 
 def step (c : Cfg) (s : State) (l : Label) : Option State :=
   if s.panicked then none else
@@ -97,19 +115,19 @@ def step (c : Cfg) (s : State) (l : Label) : Option State :=
   | .oSend =>
     if c.chanForm = true ∧ 0 < s.orem ∧ s.oclosed = false then
       if s.obuf < c.ocap then some { s with orem := s.orem - 1, obuf := s.obuf + 1 }
-      else if c.ocap = 0 ∧ s.pc = .next then some { s with orem := s.orem - 1, pc := .add }
+      else if c.ocap = 0 ∧ s.pc = .next then some (take c { s with orem := s.orem - 1, obuf := s.obuf + 1 })
       else none
     else none
   | .oClose =>
     if c.chanForm = true ∧ s.orem = 0 ∧ s.oclosed = false then some { s with oclosed := true } else none
   | .spNext =>
-    if c.chanForm = true ∧ s.pc = .next ∧ (0 < s.obuf ∨ s.oclosed = true) then some (advance s) else none
+    if c.chanForm = true ∧ s.pc = .next ∧ (0 < s.obuf ∨ s.oclosed = true) then some (take c s) else none
   | .spAdd =>
     if s.pc = .add then some { s with wg := s.wg + 1, pc := .go } else none
   | .spGo =>
     if s.pc = .go then
       let s1 := { s with st := upd s.st s.k .recv, k := s.k + 1, pc := .next }
-      some (if c.chanForm then s1 else advance s1)
+      some (if c.chanForm then s1 else advance c s1.obuf s1)
     else none
   | .spWait =>
     if s.pc = .wait ∧ s.wg = 0 then some { s with pc := .close } else none
